@@ -17,6 +17,8 @@ type Reader struct {
 	Errs   []string
 	Err    error
 	Done   bool
+	// Short counts Reads that failed because the application's buffer was smaller than the payload
+	Short int
 }
 
 // ConnOf returns the Conn of endpoint "c" or "s".
@@ -29,13 +31,22 @@ func (p *Pair) ConnOf(ep string) *dtls.Conn {
 }
 
 // StartReader starts a goroutine that reads until a terminal error.
-func (p *Pair) StartReader(ep string) *Reader {
+func (p *Pair) StartReader(ep string) *Reader { return p.StartReaderBuf(ep, 16384) }
+
+// StartReaderBuf is StartReader with an application buffer of the given size.
+func (p *Pair) StartReaderBuf(ep string, size int) *Reader {
 	r := &Reader{Ep: ep}
 	conn := p.ConnOf(ep)
 	p.S.Go(ep+"-reader", func() {
-		buf := make([]byte, 16384)
+		buf := make([]byte, size)
 		for {
 			n, err := conn.Read(buf)
+			if err != nil && contains(err.Error(), "buffer is too small") {
+				r.Short++
+				p.S.Record("read-short-buffer", ep, err.Error(), nil)
+
+				continue
+			}
 			if err != nil {
 				r.Errs = append(r.Errs, err.Error())
 				p.S.Record("read-err", ep, err.Error(), nil)
